@@ -7,6 +7,7 @@ import (
 	"strings"
 	"time"
 
+	"github.com/robfig/soy"
 	"github.com/robfig/soy/parse"
 	"verif/vrt"
 )
@@ -58,7 +59,13 @@ func runParseCase(c *Ctx, prop string, pc parseCase) {
 		baseGoroutines = runtime.NumGoroutine()
 	}
 	v := vrt.Run(vrt.Options{Fuel: fuelFor(len(pc.Input))}, func() {
-		if pc.Kind == "expr" {
+		if pc.Kind == "globals" {
+			m, err := soy.ParseGlobals(strings.NewReader(pc.Input))
+			tree, isErr = m != nil, err != nil
+			if err != nil {
+				errStr = err.Error()
+			}
+		} else if pc.Kind == "expr" {
 			n, err := parse.Expr(pc.Input)
 			tree, isErr = n != nil, err != nil
 			if err != nil {
@@ -344,6 +351,52 @@ func parseSweep(c *Ctx, prop string) {
 		}
 	}
 	rec(0, "")
+	// (h) globals files (C18: ParseGlobals parses one expression per line and is
+	// called repeatedly by reloading servers): every sequence of up to three
+	// lines over the line alphabet, and every position of one failing line in
+	// files of up to twelve lines.
+	var globalsSmall []parseCase
+	if prop == "C18" {
+		glines := []string{"a.B = 1", "x", "c = )", "d = $x", "e = 1 2", "// c", "", "f = 'q' + 2", "g = [1, 2", "h = 'u"}
+		var grec func(d int, s string)
+		grec = func(d int, s string) {
+			if d > 0 {
+				do("globals", s, "globals lines")
+				do("globals", strings.TrimSuffix(s, "\n"), "globals lines")
+			}
+			if d == 3 {
+				return
+			}
+			for _, l := range glines {
+				grec(d+1, s+strings.Replace(l, "a.B", fmt.Sprintf("a.B%d", d), 1)+"\n")
+			}
+		}
+		grec(0, "")
+		for n := 1; n <= 12; n++ {
+			for bad := 0; bad < n; bad++ {
+				for _, bl := range glines[1:5] {
+					for _, sepr := range []string{"\n", "\r\n"} {
+						var sb strings.Builder
+						for i := 0; i < n; i++ {
+							if i == bad {
+								sb.WriteString(bl)
+							} else {
+								fmt.Fprintf(&sb, "k.V%d = %d", i, i)
+							}
+							sb.WriteString(sepr)
+						}
+						do("globals", sb.String(), "globals failing line")
+						if sepr == "\n" && n <= 8 && (bad == 0 || bad == n-1 || bad == n/2) {
+							globalsSmall = append(globalsSmall, parseCase{"globals", sb.String(), "schedules"})
+						}
+					}
+				}
+			}
+		}
+		for _, l := range glines {
+			globalsSmall = append(globalsSmall, parseCase{"globals", l + "\n", "schedules"}, parseCase{"globals", "a = 1\n" + l + "\nb = 2\n", "schedules"})
+		}
+	}
 	// (g) schedule exploration: small inputs under every interleaving of the
 	// parser and scanner threads up to preemption bound 2.
 	if c.Instr() {
@@ -367,6 +420,7 @@ func parseSweep(c *Ctx, prop string) {
 			parseCase{"file", "{namespace a}\n{template .t}\n{css $x y, a}\n{/template}\n", "schedules"},
 			parseCase{"file", "{namespace a}\n{template .t}\n{call .t}{param key=\"k\" value=\"1 2\"/}{/call}\n{/template}\n", "schedules"},
 		)
+		small = append(small, globalsSmall...)
 		for _, pc := range small {
 			if !c.Mine() {
 				continue
@@ -374,7 +428,9 @@ func parseSweep(c *Ctx, prop string) {
 			pc := pc
 			var first string
 			st := explore(vrt.Options{Fuel: fuelFor(len(pc.Input))}, 2, 200000, func() {
-				if pc.Kind == "expr" {
+				if pc.Kind == "globals" {
+					soy.ParseGlobals(strings.NewReader(pc.Input))
+				} else if pc.Kind == "expr" {
 					parse.Expr(pc.Input)
 				} else {
 					parse.SoyFile("f.soy", pc.Input)
